@@ -204,6 +204,14 @@ theorem bld_step (fresh : Nat → α → α) {b : ArrayBuilder.Builder α} {acc 
     · obtain ⟨c, hc, hw, hn⟩ := g2 (by simp [refClonePanic, hj])
       simp only [refClonePanic, hj, if_false] at hw
       simp [ArrayBuilder.step, bvStep, hc, ArrayBuilder.wf_dropped hw, refClonePanic, hj, h, h.2.1]
+  | cloneFrom vs =>
+    obtain ⟨t1, t2, t3⟩ := ArrayBuilder.wf_pushAll_new (α := α) b.n vs
+    obtain ⟨c, hc, hw, hn⟩ := ArrayBuilder.wf_cloneFrom (fun i => fresh (k + vs.length + i)) h t1
+    simp [ArrayBuilder.step, bvStep, bvAccepted, hc, ArrayBuilder.wf_dropped t1, hw, hn, t2, t3, t1.2.1]
+  | cloneInto vs =>
+    obtain ⟨t1, t2, t3⟩ := ArrayBuilder.wf_pushAll_new (α := α) b.n vs
+    obtain ⟨c, hc, hw, hn⟩ := ArrayBuilder.wf_cloneFrom (fun i => fresh (k + vs.length + i)) t1 h
+    simp [ArrayBuilder.step, bvStep, bvAccepted, hc, ArrayBuilder.wf_dropped h, hw, hn, t2, h.2.1]
 
 theorem bld_run (fresh : Nat → α → α) (ops : List (ArrayBuilder.Op α)) :
     ∀ (b : ArrayBuilder.Builder α) (acc : List α) (k : Nat), ArrayBuilder.Wf b acc →
@@ -230,32 +238,69 @@ theorem bld_run (fresh : Nat → α → α) (ops : List (ArrayBuilder.Op α)) :
     rw [hsp]
     exact ⟨g1, g2, g3, by rw [g4]⟩
 
-/-- with value-preserving clones the bounded vector holds the first `n` pushes -/
+/-- the pushes that end up in the final builder either extend the initial ones, or (after a
+    `clone_from` from a second builder) do not depend on them -/
+theorem pushesFrom_cases (ops : List (ArrayBuilder.Op α)) :
+    (∀ a, pushesFrom a ops = a ++ pushesFrom [] ops) ∨ (∀ a, pushesFrom a ops = pushesFrom [] ops) := by
+  induction ops with
+  | nil => left; intro a; simp [pushesFrom]
+  | cons op r ih =>
+    cases op with
+    | push v =>
+      rcases ih with ih | ih
+      · left; intro a
+        simp only [pushesFrom, List.nil_append]
+        rw [ih (a ++ [v]), ih [v]]; simp
+      · right; intro a
+        simp only [pushesFrom, List.nil_append]
+        rw [ih (a ++ [v]), ih [v]]
+    | cloneFrom vs => right; intro a; simp [pushesFrom]
+    | clone => simpa only [pushesFrom] using ih
+    | cloneDrop => simpa only [pushesFrom] using ih
+    | clonePanic j => simpa only [pushesFrom] using ih
+    | cloneInto vs => simpa only [pushesFrom] using ih
+
+/-- with value-preserving clones the bounded vector holds the first `n` of the pushes that reach it -/
 theorem bvRun_values (n : Nat) (ops : List (ArrayBuilder.Op α)) :
     ∀ (acc : List α) (k : Nat), acc.length ≤ n →
-      (bvRun (fun _ x => x) n (acc, k) ops).1.1 = (acc ++ pushes ops).take n := by
+      (bvRun (fun _ x => x) n (acc, k) ops).1.1 = (pushesFrom acc ops).take n := by
   induction ops with
-  | nil => intro acc k h; simp [bvRun, pushes, List.take_of_length_le h]
+  | nil => intro acc k h; simp [bvRun, pushesFrom, List.take_of_length_le h]
   | cons op r ih =>
     intro acc k h
     cases op with
     | push v =>
       by_cases hlt : acc.length < n
-      · simp only [bvRun, bvStep, bvPush, hlt, if_true, pushes]
+      · simp only [bvRun, bvStep, bvPush, hlt, if_true, pushesFrom]
         rw [ih (acc ++ [v]) (k + 1) (by simp; omega)]
-        simp
       · have : acc.length = n := by omega
-        simp only [bvRun, bvStep, bvPush, hlt, if_false, pushes]
+        simp only [bvRun, bvStep, bvPush, hlt, if_false, pushesFrom]
         rw [ih acc (k + 1) h]
-        rw [List.take_append_of_le_length (by omega), List.take_append_of_le_length (by omega)]
+        rcases pushesFrom_cases r with hc | hc
+        · rw [hc acc, hc (acc ++ [v]), List.append_assoc,
+            List.take_append_of_le_length (by omega), List.take_append_of_le_length (by omega)]
+        · rw [hc acc, hc (acc ++ [v])]
     | clone =>
-      simp only [bvRun, bvStep, pushes, mapFrom_id]
+      simp only [bvRun, bvStep, pushesFrom, mapFrom_id]
       exact ih acc _ h
     | cloneDrop =>
-      simp only [bvRun, bvStep, pushes]
+      simp only [bvRun, bvStep, pushesFrom]
       exact ih acc _ h
     | clonePanic j =>
-      simp only [bvRun, bvStep, pushes]
+      simp only [bvRun, bvStep, pushesFrom]
+      exact ih acc _ h
+    | cloneFrom vs =>
+      simp only [bvRun, bvStep, pushesFrom, mapFrom_id, bvAccepted]
+      rw [ih (vs.take n) _ (by simp; omega)]
+      rcases pushesFrom_cases r with hc | hc
+      · rw [hc (vs.take n), hc vs]
+        by_cases hl : vs.length ≤ n
+        · rw [List.take_of_length_le hl]
+        · rw [List.take_append_of_le_length (by simp; omega), List.take_take, Nat.min_self,
+            List.take_append_of_le_length (by omega)]
+      · rw [hc (vs.take n), hc vs]
+    | cloneInto vs =>
+      simp only [bvRun, bvStep, pushesFrom, mapFrom_id]
       exact ih acc _ h
 
 /-! ### consumer -/
